@@ -28,6 +28,12 @@ fn main() {
                 writeln!(out, "{} {}", toks[1], r).unwrap();
             }
         }
+        "one" => {
+            // `h one KIND id args…`: a single request; used by components that run a case which may
+            // abort the process (allocation failure) in a child of their own
+            let toks: Vec<&str> = args[2..].iter().map(|s| s.as_str()).collect();
+            println!("{} {}", toks[1], run_request(toks[0], &toks[2..]));
+        }
         "oracle" => {
             let rep = run_oracle(&args[2], args[3].parse().unwrap(), args[4].parse().unwrap(), args.get(5).map(|s| s.as_str()).unwrap_or("quick"));
             for (o, w) in &rep.failures {
